@@ -178,7 +178,7 @@ class PieceNode:
             if val:
                 dest_path = os.path.join(self.dest, pathnode.full)
                 copypath(loc, dest_path)
-            return val
+                return True
         return False
 
     def find_matches(self, filemap: dict, dest: str) -> bool:
